@@ -458,6 +458,312 @@ def r2_step_equals_batch(ctx):
     ctx.check(ok, "SolveExp2.tsolve: the batch step is d = E_dd d + E_dv v + PQF[d half], v = E_vd d + E_vv v + PQF[v half], PQF = P M^-1 f0 (+ Q M^-1 f1)", ts)
 
 
+# ---------------------------------------------------------------------------
+# complex-eigenvalue path: batch loop of _solve_complex_unc versus the generator, per configuration
+import copy as _copy
+import re as _re
+
+FRB, FK = F.sym("frb"), F.sym("fk")
+
+
+class _ReIm(ast.NodeTransformer):
+    """X.real / X.imag -> __re(X) / __im(X) so that the two parts stay distinguishable in the algebra"""
+
+    def visit_Attribute(self, node):
+        self.generic_visit(node)
+        if node.attr in ("real", "imag") and isinstance(node.ctx, ast.Load):
+            return ast.copy_location(ast.Call(func=ast.Name(id="__re" if node.attr == "real" else "__im", ctx=ast.Load()), args=[node.value], keywords=[]), node)
+        return node
+
+
+def _cx_env():
+    env = _mk_env()
+    for nm in ("rur_d", "iur_d", "rur_v", "iur_v"):
+        env[f"pc.{nm}"] = F.sym(nm)
+    env.update({"pc.G": F.sym("G"), "pc.A": F.sym("A"), "pc.Ap": F.sym("Ap"), "self.ikrf": IKRF, "self.m": F.sym("m")})
+    return env
+
+
+def _cx_call(node, ev):
+    d = dotted(node.func) or ""
+    if d in ("__re", "__im"):
+        v = ev.ev(node.args[0])
+        if is_unknown(v):
+            return v
+        return F.fn("re" if d == "__re" else "im", need(v))
+    if d in ("self._delconj",):
+        return F.const(0)
+    return _call_hook(node, ev)
+
+
+def _cx_cond(cfg):
+    def cond(test, ev):
+        if isinstance(test, ast.UnaryOp) and isinstance(test.op, ast.Not) and utext(test) != "notself.slices":
+            r = cond(test.operand, ev)
+            return None if r is None else not r
+        t = utext(test)
+        table = {
+            "self.rbsize": cfg["rb"], "rbsize": cfg["rb"], "self.misnotNone": cfg["m"] is not None, "misnotNone": cfg["m"] is not None,
+            "self.unc": cfg["m"] == "unc", "unc": cfg["m"] == "unc", "nt>1": True, "nt==1": False,
+            "self.order==1": cfg["order"] == 1, "order==1": cfg["order"] == 1, "order==0": cfg["order"] == 0,
+            "notself.slices": False, "self.ksizeandnt>1": True, "ksize": True, "self.ksize": True,
+            "self.systypeisfloat": cfg["real"], "systypeisfloat": cfg["real"], "rfsize": cfg.get("rf", True), "self.rfsize": cfg.get("rf", True),
+        }
+        return table.get(t)
+    return cond
+
+
+def _batch_complex(ctx, cfg):
+    """one step of SolveUnc._solve_complex_unc for the configuration: dict of the values stored into column i+1"""
+    fn0 = ctx.src.func(UNC, "SolveUnc._solve_complex_unc")
+    fn = _ReIm().visit(_copy.deepcopy(fn0))
+    cond = _cx_cond(cfg)
+
+    def sub(node, ev):
+        t = utext(node)
+        fixed = {"force[rb]": FRB, "force[kdof]": FK, "drb[:,0]": F.sym("drb0"), "vrb[:,0]": F.sym("vrb0"), "d[rb]": F.sym("drb"), "v[rb]": F.sym("vrb"),
+                 "v[kdof,0]": V0, "d[kdof,0]": D0}
+        if t in fixed:
+            return fixed[t]
+        m = _re.fullmatch(r"(\w+)\[:,(:-1|1:|i)\]", t)
+        if m and m.group(1) in ev.env and not is_unknown(ev.env[m.group(1)]) and m.group(1) not in ("y",):
+            base = need(ev.env[m.group(1)])
+            if m.group(2) == ":-1":
+                return base.subs({"frb": F0RB, "fk": F0})
+            if m.group(2) == "1:":
+                return base.subs({"frb": F1RB, "fk": F1})
+            return base
+        if t == "y[:,1:]":
+            for b, idx, val, st in reversed(ev.stores):
+                if b == "y" and idx.replace(" ", "").strip("()") == ":,i+1":
+                    return val
+        return NotImplemented
+
+    ev = Evaluator(env=_cx_env(), cond=cond, src=ctx.src, subscript=sub, call=_cx_call, store_accept=lambda n, i, node: True)
+    ev.env["y0"] = F.sym("y0")
+
+    def run(stmts):
+        for st in stmts:
+            if isinstance(st, ast.If):
+                c = cond(st.test, ev)
+                if c is None:
+                    raise Unsupported(f"_solve_complex_unc: undecided test `{ast.unparse(st.test)}`")
+                run(st.body if c else st.orelse)
+            elif isinstance(st, ast.For):
+                run(st.body)           # one symbolic iteration: column i -> i + 1
+            elif isinstance(st, ast.Expr):
+                continue
+            else:
+                ev.stmt(st)
+    run(fn.body)
+    out = {}
+    for b, idx, val, st in ev.stores:
+        out[(b, idx.replace(" ", "").strip("()"))] = val
+    out["__AF"] = ev.env.get("AF")
+    out["__AFp"] = ev.env.get("AFp")
+    out["__ABF"] = ev.env.get("ABF")
+    return out, fn0
+
+
+def _gen_complex(ctx, cfg, which):
+    fn0 = ctx.src.func(UNC, "SolveUnc._solve_complex_unc_generator")
+    fn = _ReIm().visit(_copy.deepcopy(fn0))
+    loops = [n for n in ast.walk(fn) if isinstance(n, ast.While) and ast.unparse(n.test) == "True"]
+    if len(loops) != 1:
+        raise AnchorError("_solve_complex_unc_generator: one `while True` loop expected")
+    lp = loops[0]
+    cond0 = _cx_cond(cfg)
+
+    def cond(test, ev):
+        t = utext(test)
+        if t == "j<0":
+            return which == "addon"
+        return cond0(test, ev)
+
+    def sub(node, ev):
+        t = utext(node)
+        table = {"F0[rb]": F0RB, "F1[rb]": F1RB, "F0[kdof]": F0, "F1[kdof]": F1, "F1[rf]": F1RF, "Force[:,i-1]": F.sym("Force0"),
+                 "drb[:,i-1]": F.sym("drb0"), "vrb[:,i-1]": F.sym("vrb0"), "V[:,i-1]": V0, "D[:,i-1]": D0, "d[rb]": F.sym("drb"), "v[rb]": F.sym("vrb"),
+                 "a[rb]": F.sym("arb"), "d[kdof]": F.sym("D"), "v[kdof]": F.sym("V"), "d[rf]": F.sym("drf")}
+        return table.get(t, NotImplemented)
+
+    env = _cx_env()
+    env.update({"self.order": F.const(cfg["order"]), "self.unc": F.sym("unc"), "self.rbsize": F.sym("rbsize"), "self.ksize": F.sym("ksize"),
+                "self.rfsize": F.sym("rfsize"), "self.systype": F.sym("systype"), "self._force": F.sym("Force"), "self.rb": F.sym("rb"),
+                "self.kdof": F.sym("kdof"), "self.rf": F.sym("rf")})
+    ev = Evaluator(env=env, cond=cond, src=ctx.src, subscript=sub, call=_cx_call, store_accept=lambda n, i, node: True)
+
+    def run(stmts):
+        for st in stmts:
+            if st is lp:
+                body = [x for x in lp.body if not (isinstance(x, ast.Assign) and "yield" in ast.unparse(x.value))]
+                ev.env["F1"] = F.sym("F1all")
+                ev.env["j"] = F.sym("j")
+                ev.stores.clear()
+                run(body)
+                return True
+            if isinstance(st, ast.If):
+                c = cond(st.test, ev)
+                if c is None:
+                    raise Unsupported(f"_solve_complex_unc_generator: undecided test `{ast.unparse(st.test)}`")
+                if run(st.body if c else st.orelse):
+                    return True
+            elif isinstance(st, ast.Expr):
+                continue
+            else:
+                ev.stmt(st)
+        return False
+    run(fn.body)
+    out = {}
+    for b, idx, val, st in ev.stores:
+        out[(b, idx.replace(" ", "").strip("()"))] = val
+    return out, lp, fn0
+
+
+def r2c_complex_path(ctx):
+    """complex-eigenvalue solver: (a) the zero-order-hold arm of the batch loop is the first-order arm with the force held; (b) a positive
+    send of the generator stores, for the rigid-body, elastic and residual-flexibility partitions, exactly the batch step computed from
+    column i-1; in every configuration order x mass (None / diagonal / full) x system type (real / complex)."""
+    nconf = 0
+    for order in (1, 0):
+        for mass in (None, "unc", "coupled"):
+            for real in (True, False):
+                cfg = {"order": order, "m": mass, "real": real, "rb": True}
+                tag = f"order {order}, m {mass or 'None'}, {'real' if real else 'complex'} system"
+                try:
+                    b, bfn = _batch_complex(ctx, cfg)
+                    g, lp, gfn = _gen_complex(ctx, cfg, "pos")
+                except Unsupported as e:
+                    ctx.error(f"complex path ({tag}): could not evaluate", None, str(e))
+                    continue
+                nconf += 1
+                pairs = [("rigid-body displacement", ("drb", ":,i+1"), ("drb", ":,i")), ("rigid-body velocity", ("vrb", ":,i+1"), ("vrb", ":,i")),
+                         ("elastic displacement", ("d", "kdof,1:"), ("D", ":,i")), ("elastic velocity", ("v", "kdof,1:"), ("V", ":,i"))]
+                for what, bk, gk in pairs:
+                    bv, gv = b.get(bk), g.get(gk)
+                    if bv is None or gv is None or is_unknown(bv) or is_unknown(gv):
+                        ctx.error(f"complex path ({tag}): {what} not lowered", bfn, {"batch": repr(bv), "generator": repr(gv)})
+                        continue
+                    # batch value is expressed on (drb0, vrb0, y-step); bring the elastic one to the same starting point
+                    bv = bv.subs({"di": F.sym("y0")})
+                    ok = gv.equals(bv)
+                    ctx.check(ok, f"_solve_complex_unc_generator ({tag}): a positive send stores the batch {what} step computed from column i-1", lp,
+                              None if ok else {"generator": repr(gv), "batch": repr(bv)})
+                # acceleration of the rigid-body modes and the rf displacement
+                gv = g.get(("arb", ":,i"))
+                bv = b.get(("a", "rb"))
+                ok = gv is not None and bv is not None and not is_unknown(gv) and not is_unknown(bv) and gv.equals(need(bv).subs({"frb": F1RB}))
+                ctx.check(ok, f"_solve_complex_unc_generator ({tag}): rigid-body acceleration of step i is M_rb^-1 F1[rb] as in the batch solver", lp,
+                          None if ok else {"generator": repr(gv), "batch": repr(bv)})
+                gv = g.get(("drf", ":,i"))
+                ok = gv is not None and not is_unknown(gv) and gv.equals(IKRF * F1RF)
+                ctx.check(ok, f"_solve_complex_unc_generator ({tag}): residual-flexibility displacement of step i is K_rf^-1 F1[rf]", lp,
+                          None if ok else repr(gv))
+                if order == 0:
+                    cfg1 = dict(cfg, order=1)
+                    b1, _ = _batch_complex(ctx, cfg1)
+                    for nm, hold in (("__AF", {"f1rb": F0RB}), ("__AFp", {"f1rb": F0RB}), ("__ABF", {"f1": F0})):
+                        v0_, v1_ = b.get(nm), b1.get(nm)
+                        ok = v0_ is not None and v1_ is not None and not is_unknown(v0_) and not is_unknown(v1_) and need(v1_).subs(hold).equals(v0_)
+                        ctx.check(ok, f"_solve_complex_unc ({tag}): the zero-order-hold {nm[2:]} is the first-order one with the force held (f1 := f0)", bfn,
+                                  None if ok else {"order 0": repr(v0_), "order 1 with f1:=f0": repr(need(v1_).subs(hold)) if v1_ is not None and not is_unknown(v1_) else None})
+    ctx.check(nconf == 12, f"complex path evaluated in {nconf} of 12 configurations", None, nontrivial=False)
+
+
+def r3c_complex_addon(ctx):
+    """complex-eigenvalue generator: an add-on send (j < 0) adds to step i exactly the part of the positive-send update that is linear in the
+    sent force (and nothing for a zero-order hold); _get_f2x_complex_unc uses the same coefficients (Be through the eigenvector recovery for
+    the elastic modes, A/2 and Ap for the rigid-body modes)."""
+    zero = {"f0rb": 0, "drb0": 0, "vrb0": 0, "d0": 0, "v0": 0, "f0": 0}
+    for order in (1, 0):
+        for mass in (None, "unc", "coupled"):
+            for real in (True, False):
+                cfg = {"order": order, "m": mass, "real": real, "rb": True}
+                tag = f"order {order}, m {mass or 'None'}, {'real' if real else 'complex'} system"
+                try:
+                    pos, lp, fn = _gen_complex(ctx, cfg, "pos")
+                    add, _, _ = _gen_complex(ctx, cfg, "addon")
+                except Unsupported as e:
+                    ctx.error(f"complex generator add-on ({tag}): could not evaluate", None, str(e))
+                    continue
+                for nm, what in (("drb", "rigid-body displacement"), ("vrb", "rigid-body velocity"), ("D", "elastic displacement"), ("V", "elastic velocity")):
+                    a = add.get((nm, ":,i"))
+                    if order == 0:
+                        ctx.check(a is None, f"_solve_complex_unc_generator ({tag}): an add-on send leaves the {what} of step i alone (zero-order hold: "
+                                             "the step does not depend on its end force)", lp, None if a is None else repr(a))
+                        continue
+                    p_ = pos.get((nm, ":,i"))
+                    if a is None or p_ is None or is_unknown(a) or is_unknown(p_):
+                        ctx.error(f"complex generator add-on ({tag}): {what} not lowered", lp, {"addon": repr(a), "pos": repr(p_)})
+                        continue
+                    inc = need(a) - F.sym(nm)
+                    want = need(p_).subs({k: F.const(v) for k, v in zero.items()})
+                    ok = inc.equals(want)
+                    ctx.check(ok, f"_solve_complex_unc_generator ({tag}): an add-on send adds exactly the f1-linear part of the {what} update", lp,
+                              None if ok else {"add-on increment": repr(inc), "d(update)/d f1 * F1": repr(want)})
+                a = add.get(("arb", ":,i"))
+                p_ = pos.get(("arb", ":,i"))
+                ok = a is not None and p_ is not None and not is_unknown(a) and (need(a) - F.sym("arb")).equals(need(p_))
+                ctx.check(ok, f"_solve_complex_unc_generator ({tag}): an add-on send adds M_rb^-1 F1[rb] to the rigid-body acceleration", lp,
+                          None if ok else repr(a))
+                a = add.get(("drf", ":,i"))
+                ok = a is not None and not is_unknown(a) and (need(a) - F.sym("drf")).equals(IKRF * F1RF)
+                ctx.check(ok, f"_solve_complex_unc_generator ({tag}): an add-on send adds K_rf^-1 F1[rf] to the residual-flexibility displacement", lp,
+                          None if ok else repr(a))
+                a = add.get(("Force", ":,i"))
+                ok = a is not None and not is_unknown(a) and (need(a) - F.sym("Force")).equals(F.sym("F1all"))
+                ctx.check(ok, f"_solve_complex_unc_generator ({tag}): an add-on send accumulates into the stored force of step i", lp, None if ok else repr(a))
+    # get_f2x, complex path
+    fn0 = ctx.src.func(UNC, "SolveUnc._get_f2x_complex_unc")
+    fn = _ReIm().visit(_copy.deepcopy(fn0))
+    for mass in (None, "unc", "coupled"):
+        for velo in (True, False):
+            cfg = {"order": 1, "m": mass, "real": True, "rb": True}
+            c0 = _cx_cond(cfg)
+
+            def cond(test, ev, velo=velo):
+                if isinstance(test, ast.UnaryOp) and isinstance(test.op, ast.Not):
+                    r = cond(test.operand, ev)
+                    return None if r is None else not r
+                t = utext(test)
+                if t == "velo":
+                    return velo
+                return c0(test, ev)
+
+            def sub(node, ev):
+                t = utext(node)
+                return {"phi[:,kdof]": F.sym("phik"), "phi[:,rb]": F.sym("phir")}.get(t, NotImplemented)
+
+            def call(node, ev):
+                d = dotted(node.func) or ""
+                if d == "self._add_rf_flex":
+                    return ev.ev(node.args[0])
+                return _cx_call(node, ev)
+
+            env = _cx_env()
+            env["flex_rf"] = F.const(0)
+            ev = Evaluator(env=env, cond=cond, src=ctx.src, subscript=sub, call=call)
+            ev.run(fn.body)
+            tag = f"m {mass or 'None'}, {'velocity' if velo else 'displacement'}"
+            if not ev.returns or is_unknown(ev.returns[-1][0]):
+                ctx.error(f"_get_f2x_complex_unc ({tag}): not lowered", fn0, repr(ev.returns[-1][0]) if ev.returns else None)
+                continue
+            got = need(ev.returns[-1][0])
+            try:
+                pos, lp, _ = _gen_complex(ctx, cfg, "pos")
+            except Unsupported as e:
+                ctx.error(f"_get_f2x_complex_unc ({tag}): generator not lowered", fn0, str(e))
+                continue
+            # unit add-on force through phi^T: f1 -> phik^T, f1rb -> phir^T; response recovered with phik / phir
+            zero = {"f0rb": F.const(0), "drb0": F.const(0), "vrb0": F.const(0), "d0": F.const(0), "v0": F.const(0), "f0": F.const(0)}
+            el = need(pos[("V" if velo else "D", ":,i")]).subs(zero).subs({"f1": F.sym("phik")})
+            rb = need(pos[("vrb" if velo else "drb", ":,i")]).subs(zero).subs({"f1rb": F.sym("phir")})
+            want = F.sym("phik") * el + F.sym("phir") * rb
+            ok = got.equals(want)
+            ctx.check(ok, f"_get_f2x_complex_unc ({tag}): flexibility = phi_k (d update/d f1) phi_k^T + phi_rb (d update/d f1) phi_rb^T of the "
+                          "complex generator's first-order step", fn0, None if ok else {"got": repr(got), "want": repr(want)})
+
+
 def eval_generator_arm_with(ctx, fn, lp, cfg, which, pre, extra_cond):
     """like eval_generator_arm but with extra decided conditions (by normalised text)"""
     ev = eval_generator_arm.__wrapped__(ctx, fn, lp, cfg, which, pre, extra_cond) if hasattr(eval_generator_arm, "__wrapped__") else None
@@ -706,7 +1012,9 @@ def r6_typing(ctx):
 RULES = [
     ("C08-R1", r1_carried_state, 30),
     ("C08-R2", r2_step_equals_batch, 40),
+    ("C08-R2c", r2c_complex_path, 80),
     ("C08-R3", r3_addon_linear_part, 24),
+    ("C08-R3c", r3c_complex_addon, 80),
     ("C08-R4", r4_get_f2x, 8),
     ("C08-R5", r5_typestate, 9),
     ("C08-R6", r6_typing, 40),
@@ -721,8 +1029,10 @@ MANIFEST = {
             "guarded by i_last == i - 1 with a recompute arm); (R2) positive send == batch step for the uncoupled, damping-as-force and SolveExp2 generators in "
             "every order/rf branch; (R3) add-on increment == d(update)/d f1 * F1 and touches nothing else; (R4) get_f2x == phi (d update/d f1) phi^T; "
             "(R5) publish-before-prime / finalize typestate; (R6) index-space typing. By induction over sends these give the batch solution for every "
-            "finite history in the documented domain. Not decided: bit-equality of differently associated sums, the complex-mode generator's algebra "
-            "(only typed), add-on before any positive send.",
+            "finite history in the documented domain. (R2c/R3c) the same for the complex-eigenvalue generator against SolveUnc._solve_complex_unc in "
+            "12 configurations (order x mass None/diagonal/full x real/complex system): positive send == batch step on the rb, elastic and rf partitions, "
+            "zero-order arm == first-order arm with the force held, add-on == f1-linear part, _get_f2x_complex_unc == that same coefficient. "
+            "Not decided: bit-equality of differently associated sums, add-on before any positive send.",
     "note": "Trusted: CPython ast; verifier/e2_formula.py with matrix products abstracted to commutative products (detects a wrong coefficient or term, "
             "not a wrong multiplication order); lemma used: the cached damping force, when its guard holds, equals bo @ V[:, i-1].",
     "technique": "static liveness (loop-carried state) + symbolic step formulas compared with the batch loop body + differentiation for the add-on part",
